@@ -12,6 +12,7 @@ T = "synapgrad/nn/utils/train.py"
 MUT = {
  "C13": [
   ("revert-c689c99 (Dropout mask float32)", "revert", "c689c99"),
+  ("seeded C13-m2: Module._set_mode returns early without visiting submodules", "patch", "/verif/seeded/C13-m2/patch.diff"),
   ("BN: eval uses batch statistics and updates the running ones (bn_training always True)", L,
    "            bn_training = (self.running_mean is None) and (self.running_var is None)",
    "            bn_training = True"),
@@ -100,6 +101,9 @@ def main():
         reset()
         if m[1] == "revert":
             rc, out = sh("git -C %s revert --no-commit %s" % (SCRATCH, m[2]))
+            assert rc == 0, out
+        elif m[1] == "patch":
+            rc, out = sh("git -C %s apply %s" % (SCRATCH, m[2]))
             assert rc == 0, out
         else:
             path = os.path.join(SCRATCH, m[1])
